@@ -19,9 +19,15 @@ inductive Ev where
   | api (k v : String) (ok : Bool)
   | ret (ok : Bool) (enabled : Bool) (static : List String)
   | task (kind : String) (held : Bool)       -- controller level: a task starts; `held` = reloads are held back for it
-  | drained (total : Bool)                   -- controller level: the queue drained (end of start-up or of a batch)
+  | drained (d : Bool)                       -- controller level: the queue drains in this task (end of start-up or of a batch)
+  | stale (keys : List String)               -- controller level: items that differ from a fresh regeneration of every resource
   | other
   deriving Repr
+
+def parseEvs (s : String) : List Ev :=
+  match s.splitOn "|" with
+  | ["T", kind, held, drain] => [.task kind (held == "1"), .drained (drain == "1")]
+  | _ => []
 
 def parseEv (s : String) : Ev :=
   match s.splitOn "|" with
@@ -30,8 +36,7 @@ def parseEv (s : String) : Ev :=
   | ["R", r] => .reload (r == "ok")
   | ["A", k, v, r] => .api k v (r == "ok")
   | ["RET", r, en, st] => .ret (r == "ok") (en == "1") (if st == "" then [] else st.splitOn "+")
-  | ["T", kind, held] => .task kind (held == "1")
-  | ["DRAIN", t] => .drained (t == "1")
+  | ["END", ks] => .stale (if ks == "" then [] else ks.splitOn "+")
   | _ => .other
 
 structure St where
@@ -99,40 +104,45 @@ def checkOps (st : St) : List (String × List Ev) → Nat → Option String
 structure CAcc where
   st : St := {}
   held : Bool := true
-  reloadsSinceDrain : Nat := 0
+  draining : Bool := false
   failed : Bool := false            -- a reload failed since the last successful one
   idx : Nat := 0
-  complaint : Option String := none
-  dirtyAtDrain : Bool := false
+  complaints : List String := []
 
 def diff (static : List String) (st : St) : Option String :=
   match st.disk.find? (fun p => relevant static p.1 && get st.running p.1 != some p.2) with
   | some p => some p.1
   | none => (st.running.find? (fun p => relevant static p.1 && (get st.disk p.1).isNone)).map (·.1)
 
-/-- One controller-level event. `static` = secrets named statically by the configuration at the end of the run
-(an over-approximation used for every check point of the run is avoided: the harness prints it with each task end). -/
+def complain (a : CAcc) (c : String) : CAcc :=
+  if a.complaints.length < 6 then { a with complaints := a.complaints ++ [c] } else a
+
+/-- One controller-level event.
+* `task kind held drain`: a task starts; `held` = reloads are held back for the whole task (start-up or inside a batch, and
+  the queue does not drain in it); `drain` = the queue drains in this task (end of start-up or of a batch).
+* `ret … static`: the task ends. -/
 def cstep (a : CAcc) (e : Ev) : CAcc :=
-  if a.complaint.isSome then a else
   match e with
-  | .task _ held => { a with held := held, idx := a.idx + 1 }
+  | .task _ held => { a with held := held, draining := false, idx := a.idx + 1 }
+  | .drained d => { a with draining := d }
   | .reload ok =>
-    let a1 := { a with st := if ok then { a.st with running := a.st.disk } else a.st, failed := if ok then false else true }
-    if a.held then { a1 with complaint := some s!"task#{a.idx}:reload-while-held" } else a1
+    let a0 := if a.held then complain a s!"task#{a.idx}:reload-while-held" else a
+    let a1 := if a.draining && ok && (diff [] a.st).isNone && !a.failed then complain a0 s!"task#{a.idx}:needless-reload-at-drain" else a0
+    { a1 with st := if ok then { a1.st with running := a1.st.disk } else a1.st, failed := !ok }
   | .api k v ok =>
-    let a1 := { a with st := if ok then { a.st with running := put a.st.running k v } else a.st }
-    if a.held then { a1 with complaint := some s!"task#{a.idx}:api-push-while-held" } else a1
+    let a0 := if a.held then complain a s!"task#{a.idx}:api-push-while-held" else a
+    { a0 with st := if ok then { a0.st with running := put a0.st.running k v } else a0.st }
   | .set k v => { a with st := { a.st with disk := put a.st.disk k v } }
   | .del k => { a with st := { a.st with disk := del a.st.disk k } }
-  | .drained _ => { a with held := false }
   | .ret _ _ static =>
-    -- end of a task: if reloads were not held back for it (or the queue drained in it) NGINX must be up to date
+    -- end of a task: unless reloads were held back for it, NGINX must now run what is on disk
     if a.held || a.failed then a else
     match diff static a.st with
-    | some k => { a with complaint := some s!"task#{a.idx}:unapplied:{k}" }
+    | some k => complain a s!"task#{a.idx}:unapplied:{k}"
     | none => a
+  | .stale ks => if ks.isEmpty then a else complain a s!"task#{a.idx}:stale:{"+".intercalate ks}"
   | .other => a
 
-def checkTasks (evs : List Ev) : Option String := (evs.foldl cstep {}).complaint
+def checkTasks (evs : List Ev) : List String := (evs.foldl cstep {}).complaints
 
 end Nic.Spec.Reload
